@@ -248,10 +248,18 @@ def rule_guards(program, ctx):
                     return pair and ((isinstance(expr.ops[0], ast.Eq) and pol) or (isinstance(expr.ops[0], ast.NotEq) and not pol))
                 what = f"tag value == {chal} (the parameter)"
             passes = test_edges(cfg, vpred)
+
+            def npred(expr, pol, which=which):
+                return pol and isinstance(expr, ast.Compare) and len(expr.ops) == 1 and isinstance(expr.ops[0], ast.Eq) and isinstance(expr.left, ast.Subscript) \
+                    and isinstance(expr.comparators[0], ast.Constant) and expr.comparators[0].value == which
+
+            name_passes = test_edges(cfg, npred)
             if must_pass(cfg, passes, cfg.nodes_of(s)):
                 ctx.bad(finding_at(P, rid, s, f"`{name} = True` is reachable without `{what}` having held: any {which} value authenticates"))
+            elif must_pass(cfg, name_passes, cfg.nodes_of(s)):
+                ctx.bad(finding_at(P, rid, s, f"`{name} = True` is reachable for a tag whose name is not known to be \"{which}\": some other tag can stand in for the {which} tag"))
             else:
-                ctx.ok(rid, s, f"{name} set only after {what}")
+                ctx.ok(rid, s, f"{name} set only for a \"{which}\" tag after {what}")
 
 
 def rule_urls(program, ctx):
@@ -266,10 +274,13 @@ def rule_urls(program, ctx):
     if not st:
         ctx.bad(finding_func(P, rid, fn, "valid_urls is no longer computed in parse_options", text="def parse_options(...)"))
         return
-    normalised = any(
-        isinstance(n, ast.Call) and call_name(n) == "isinstance" and n.args and dotted(n.args[0]) == "valid_urls" and "str" in ast.unparse(n.args[1])
-        for n in ast.walk(fn)
-    )
+    normalised = False
+    for n in ast.walk(fn):
+        if isinstance(n, ast.If) and ast.unparse(n.test) == "isinstance(valid_urls, str)":
+            # body must re-bind valid_urls to a container holding the string
+            for b in n.body:
+                if isinstance(b, ast.Assign) and dotted(b.targets[0]) == "valid_urls" and isinstance(b.value, (ast.List, ast.Tuple, ast.Set)) and any(dotted(e) == "valid_urls" for e in b.value.elts):
+                    normalised = True
     for s in st:
         v = s.value if isinstance(s, ast.Assign) else None
         if isinstance(v, ast.Call) and call_name(v).endswith(".get") and len(v.args) == 2:
@@ -386,6 +397,7 @@ AUTH = "nostr_relay/auth.py"
 WEB = "nostr_relay/web.py"
 
 MUTANTS = [
+    M("c15-relay-flag-any-tag", AUTH, "            if tag[0] == \"relay\":", "            if tag[0] != \"relay\":", "C15.guards"),
     M("c15-urls-str-default", AUTH, "        valid_urls = options.get(\"relay_urls\", [\"ws://localhost:6969\"])\n        if isinstance(valid_urls, str):\n            # a single url: membership must not degrade to a substring test\n            valid_urls = [valid_urls]\n",
       "        valid_urls = options.get(\"relay_urls\", \"ws://localhost:6969\")\n", "C15.urls"),
     M("c15-no-verify", AUTH, "        if not auth_event.verify():\n            raise AuthenticationError(\"invalid: Bad signature\")\n", "", "C15.guards", canary=True),
@@ -408,4 +420,12 @@ EQUIVS = [
       "        if abs(since) >= 600:\n            raise AuthenticationError(\"invalid: Too old or too new\")\n"),
     E("c15-eq-kind-positive", AUTH, "        if auth_event.kind != 22242:\n            raise AuthenticationError(\"invalid: Wrong kind. Must be 22242.\")\n",
       "        if not auth_event.kind == 22242:\n            raise AuthenticationError(\"invalid: Wrong kind. Must be 22242.\")\n"),
+]
+
+# functions whose syntactic mutants are used for the thorough tier's sensitivity figure (sa/automut.py)
+ANCHORS = [
+    "nostr_relay.auth:Authenticator.check_auth_event",
+    "nostr_relay.auth:Authenticator.authenticate",
+    "nostr_relay.auth:Authenticator.get_challenge",
+    "nostr_relay.auth:Authenticator.parse_options",
 ]
